@@ -65,7 +65,11 @@ func VerifC15_ContainsTime() {
 	t := vfCalendarTime("t")
 	var ti TimeInterval
 	nr := 1             // ranges per field ...
-	nr2 := 1 + vfTier() // ... two for the fields with the richer semantics (times, days of month) in the thorough tier
+	hasLoc := vfBool("hasLocation")
+	nr2 := 1 // ... two for the fields with the richer semantics (times, days of month) in the thorough tier, for intervals without a location
+	if !hasLoc {
+		nr2 += vfTier()
+	}
 	// accepted specifications (what the config validators let through)
 	hasTimes, hasDays, hasDOM, hasMonths, hasYears := vfBool("hasTimes"), vfBool("hasWeekdays"), vfBool("hasDaysOfMonth"), vfBool("hasMonths"), vfBool("hasYears")
 	if hasTimes {
@@ -116,7 +120,7 @@ func VerifC15_ContainsTime() {
 	// the interval's own location: absent (UTC) or any fixed offset of whole minutes
 	// within UTC-14:00..UTC+14:00; the fields are then read in that zone
 	tl := t
-	if vfBool("hasLocation") {
+	if hasLoc {
 		var zone *time.Location
 		if vfBool("zone.hasTransition") {
 			// a zone whose offset changes once, like New York on 2024-03-10 (02:00 -> 03:00
